@@ -92,14 +92,26 @@ def numEnd : Str → Prop
   | [] => True
   | c :: _ => isDigit c = false ∧ c ≠ 46 ∧ c ≠ 101 ∧ c ≠ 69
 
+/-- the text does not continue with a digit -/
+def headNotDigit : Str → Prop
+  | [] => True
+  | c :: _ => isDigit c = false
+
+theorem headNotDigit_of_numEnd (rest : Str) (h : numEnd rest) : headNotDigit rest := by
+  cases rest with
+  | nil => trivial
+  | cons c t => exact h.1
+
 theorem spanDigits_digitChars (ds : List Nat) (hd : ∀ d ∈ ds, d < 10) (rest : Str)
-    (hr : match rest with | [] => True | c :: _ => isDigit c = false) :
+    (hr : headNotDigit rest) :
     spanDigits (digitChars ds ++ rest) = (ds, rest) := by
   induction ds with
   | nil =>
     cases rest with
     | nil => rfl
-    | cons c t => simp only [digitChars, List.map_nil, List.nil_append, spanDigits]; simp at hr; simp [hr]
+    | cons c t =>
+      have hr' : isDigit c = false := hr
+      simp [digitChars, spanDigits, hr']
   | cons d t ih =>
     have hd' : d < 10 := hd d (by simp)
     have hdig : isDigit (48 + d) = true := by simp [isDigit]; omega
@@ -131,10 +143,7 @@ theorem parseExp_end (rest : Str) (h : numEnd rest) : parseExp rest = some (none
 theorem parseNum_renderInt (n : Int) (rest : Str) (h : numEnd rest) :
     parseNum (renderInt n ++ rest) = some (.int n, rest) := by
   have hspan : spanDigits (digitChars (natDigits n.natAbs) ++ rest) = (natDigits n.natAbs, rest) :=
-    spanDigits_digitChars _ (natDigits_lt10 _) rest (by
-      cases rest with
-      | nil => trivial
-      | cons c t => exact h.1)
+    spanDigits_digitChars _ (natDigits_lt10 _) rest (headNotDigit_of_numEnd rest h)
   have hne := natDigits_ne_nil n.natAbs
   have hlz := natDigits_no_leading_zero n.natAbs
   have hval := natDigits_val n.natAbs
